@@ -47,7 +47,7 @@ def on_site(p, r, exc, acc):
     did_raise = bool(r["raised"])
     desc = dict(site=site, buffers=r["d"], callers=r["c"], nextcaller_pending=r["pending"], handled_inside=r["hosted"],
                 raise_at=r["raise_id"] if did_raise else 0, occurrence=r["raise_occ"] if did_raise else 0)
-    normal, on_raise = RS.SITES[site]
+    normal, on_raise = RS.ALL_SITES[site]
     if not did_raise:
         acc.counts["no probe of this site raised"] += 1
         return
@@ -99,7 +99,7 @@ CASE = __CASE__
 KIND = __KIND__
 from mako.lookup import TemplateLookup
 from mako import runtime, util
-from props.render_step import TEMPLATE, INC, SITES, Boom
+from props.render_step import TEMPLATE_FULL as TEMPLATE, INC, ALL_SITES as SITES, Boom
 print("case:", CASE)
 site, k, occ = CASE["site"], CASE["raise_at"], CASE["occurrence"]
 # public-API reproduction: the site runs inside % try in a def that was called with content; after the handler that def
@@ -163,7 +163,8 @@ def run(check, tier):
     check.not_claimed("error page contents of format_exceptions", "exceptions that are not Exception subclasses",
                       "templates beyond the per-construct composition argument")
     jobs = []
-    for site in RS.SITES:
+    sites = list(RS.SITES) + (list(RS.NESTED) if tier == "thorough" else [n for n in RS.NESTED if n.endswith("_s_call") or n.endswith("_s_buf")])
+    for site in sites:
         jobs.append(("C13-" + site, h_site(site), on_site, "exception escaping construct %s, from a symbolic pre-state" % site, dict(site=site), ("raised",)))
         jobs.append(("C13-h-" + site, h_site(site, True), on_site, "exception inside construct %s handled by an enclosing %% try, then rendering continues" % site,
                      dict(site=site, handler="% try in the enclosing def"), ("raised",)))
